@@ -388,6 +388,64 @@ pub fn run(tier: Tier) -> i32 {
         stats.add(&st);
         n_cases += 1;
     }
+    // a function whose `cacheable()` answer changes from true to false between two calls of one
+    // evaluation: once it declares itself non-cacheable it is invoked on every call
+    {
+        use std::sync::atomic::{AtomicBool, AtomicU64, Ordering};
+        let flag = Arc::new(AtomicBool::new(true));
+        let count = Arc::new(AtomicU64::new(0));
+        let (f2, c2) = (flag.clone(), count.clone());
+        let h: Handler = Arc::new(move |name, _p| {
+            if name == "flip" {
+                f2.store(false, Ordering::SeqCst);
+                return (Ok(Value::None), 0);
+            }
+            let n = c2.fetch_add(1, Ordering::SeqCst);
+            (Ok(Value::Int(n as i128)), 0)
+        });
+        let mut t = probe("t", true, &h);
+        t.cacheable_flag = Some(flag.clone());
+        let build = || -> Result<RuleSet, String> {
+            ruleset()
+                .with_rule(Rule::new("r0", BTreeMap::new(), Expr::parse("[t(i1), t(i1)]").map_err(|e| e.to_string())?))
+                .and_then(|b| b.with_rule(Rule::new("r1", BTreeMap::new(), Expr::parse("flip(i0)").unwrap())))
+                .and_then(|b| b.with_rule(Rule::new("r2", BTreeMap::new(), Expr::parse("[t(i1), t(i1)]").unwrap())))
+                .map_err(|e| e.to_string())
+                .map(|b| b)
+                .and_then(|b| Ok(b))
+                .map(|b| b.build())
+        };
+        let _ = build; // the functions are registered below (probe objects are moved into the builder)
+        let rs = ruleset()
+            .with_rule(Rule::new("r0", BTreeMap::new(), Expr::parse("[t(i1), t(i1)]").unwrap()))
+            .and_then(|b| b.with_rule(Rule::new("r1", BTreeMap::new(), Expr::parse("flip(i0)").unwrap())))
+            .and_then(|b| b.with_rule(Rule::new("r2", BTreeMap::new(), Expr::parse("[t(i1), t(i1)]").unwrap())))
+            .and_then(|b| b.with_function(t))
+            .and_then(|b| b.with_function(probe("flip", false, &h)))
+            .map(|b| b.build());
+        let mut acc = Acc::new();
+        acc.count("executions", 1);
+        match rs {
+            Err(e) => acc.machinery(e.to_string()),
+            Ok(rs) => match catch(|| block_on(rs.evaluate_value(&Value::None))) {
+                Ok(Ok(Ok(out))) => {
+                    let got: Vec<String> = out.iter().map(|o| format!("{:?}", o.value.as_ref().map(|v| RV::from_value(v).show()).map_err(|e| e.to_string()))).collect();
+                    let want = vec!["Ok(\"[i0, i0]\")".to_string(), "Ok(\"none\")".to_string(), "Ok(\"[i1, i2]\")".to_string()];
+                    if got != want {
+                        acc.violation(Violation {
+                            sig: "cacheable-flips".into(),
+                            what: format!("function that turns non-cacheable in the middle of an evaluation: outcomes {got:?}, expected {want:?} (cached while cacheable, invoked on every call afterwards)"),
+                            case: json!({"kind": "flip"}),
+                            size: 1,
+                        });
+                    }
+                    acc.outcome("cacheable-flip");
+                }
+                other => acc.machinery(format!("flip leg: {:?}", other.map(|r| r.map(|x| x.map(|o| o.len()).map_err(|e| e.to_string()))))),
+            },
+        }
+        rep.absorb(acc);
+    }
     // ten rules, each calling the same function once with its own argument: every failure
     // pattern (2^10), so long failure streaks followed by successes are covered
     {
